@@ -89,10 +89,11 @@ class Seq(Shape):
     """list / tuple / deque of symbolic length."""
     kind = "seq"
 
-    def __init__(self, elem, container="list", maxlen=None):
+    def __init__(self, elem, container="list", maxlen=None, sorted_by=None):
         self.elem = elem
         self.container = container
         self.maxlen = maxlen
+        self.sorted_by = sorted_by   # hint for the native generator only (field to sort generated items by)
 
 
 class FixedList(Shape):
